@@ -5,7 +5,9 @@ package main
 import (
 	"fmt"
 	"go/types"
+	"os"
 	"strings"
+	"time"
 
 	"golang.org/x/tools/go/ssa"
 )
@@ -408,8 +410,13 @@ func (x *Exec) builtin(st *State, fr *Frame, b *ssa.Builtin, args []Value, in *s
 				vs = append(vs, srcAt(Const(64, k)))
 			}
 			cur := darrV
+			// one entailment query: if the whole source fits under the path condition, every position is written
+			allFit := srcLen.Val > 0 && x.implied(st, cmp("bvult", Const(64, srcLen.Val-1), dst.Len))
 			for k := uint64(0); k < srcLen.Val; k++ {
 				fits := cmp("bvult", Const(64, k), dst.Len)
+				if allFit {
+					fits = True()
+				}
 				if fits.IsFalse() {
 					break
 				}
@@ -626,4 +633,23 @@ func (x *Exec) builderSet(st *State, p Ptr, n *Term) {
 }
 func (x *Exec) builderAdd(st *State, p Ptr, n *Term) {
 	x.builderSet(st, p, bin("bvadd", x.builderLen(st, p), n))
+}
+
+// implied asks the solver whether the path condition entails c (used to keep stores unconditional where the
+// surrounding code has already established the guard). A "no" or a timeout only loses precision of the term
+// shape, never soundness: the caller then keeps the conditional form.
+func (x *Exec) implied(st *State, c *Term) bool {
+	if c.IsTrue() {
+		return true
+	}
+	if c.IsFalse() {
+		return false
+	}
+	q := SMTQuery([]*Term{st.PC(), Not(c)}, nil)
+	r := runSolver("z3-new", q, 2*time.Second)
+	x.Stats["entailment_queries"]++
+	if os.Getenv("SNESVC_DEBUG") != "" {
+		fmt.Fprintf(os.Stderr, "DBG implied: %s %.2fs |q|=%d %s\n", r.Result, r.Seconds, len(q.Text), firstLine(r.Output))
+	}
+	return r.Result == "unsat"
 }
